@@ -358,9 +358,22 @@ type TLSObject struct {
 func FindTLSObjects(v interface{}, out *[]TLSObject) {
 	switch x := v.(type) {
 	case map[string]interface{}:
-		if s, ok := x[TagServerName].(string); ok && strings.HasPrefix(s, "POS-(") && strings.HasSuffix(s, ")") {
-			k, has := x[TagPrivateKey]
-			*out = append(*out, TLSObject{ID: s[len("POS-(") : len(s)-1], HasKey: has, Key: k})
+		// field names are matched the way encoding/json matches them: case-insensitively
+		var name string
+		var key interface{}
+		hasName, hasKey := false, false
+		for k, e := range x {
+			if strings.EqualFold(k, TagServerName) {
+				if s, ok := e.(string); ok && strings.HasPrefix(s, "POS-(") && strings.HasSuffix(s, ")") {
+					name, hasName = s, true
+				}
+			}
+			if strings.EqualFold(k, TagPrivateKey) {
+				key, hasKey = e, true
+			}
+		}
+		if hasName {
+			*out = append(*out, TLSObject{ID: name[len("POS-(") : len(name)-1], HasKey: hasKey, Key: key})
 		}
 		for _, e := range x {
 			FindTLSObjects(e, out)
